@@ -3,6 +3,7 @@ import Driver.FD
 import Driver.Unify
 import Driver.Prog
 import Driver.LTerm
+import Driver.Surf
 /-!
   pvdriver: reads one case per line on stdin, runs the executable model, prints one canonical
   result line per case.  Unknown or malformed lines print `bad-case`.
@@ -16,6 +17,7 @@ def runLine (line : String) : String :=
   | "unify" :: rest => runUnify rest
   | "prog" :: rest => runProg rest
   | "lt" :: rest => runLT rest
+  | "surf" :: rest => runSurf rest
   | _ => "bad-case"
 
 partial def loop (h : IO.FS.Stream) (out : IO.FS.Stream) : IO Unit := do
